@@ -181,8 +181,14 @@ func (v *vivo) onFrame(f *wire.Frame) {
 func invivo(s *simrt.Sim, tier string) {
 	v := &vivo{s: s, nodes: map[string]*nodeState{}}
 	run := scenario.Churn
-	if s.Tape.Variant/32%2 == 1 || os.Getenv("KSIM_C16_SCENARIO") == "reunion" {
+	switch sel := s.Tape.Variant / 16 % 4; {
+	case sel == 1 || os.Getenv("KSIM_C16_SCENARIO") == "reunion":
 		run = scenario.Reunion
+	case sel >= 2 || os.Getenv("KSIM_C16_SCENARIO") == "restartburst":
+		run = scenario.RestartBurst
+	}
+	if os.Getenv("KSIM_C16_SCENARIO") == "churn" {
+		run = scenario.Churn
 	}
 	run(s, tier, scenario.Hooks{
 		Setup: func(sw *scenario.World) {
